@@ -2,8 +2,9 @@
 """Writes MANIFEST.json from checklib/props.py + the static texts below (keeps it valid at all times)."""
 import json, os, sys
 sys.path.insert(0, os.path.dirname(os.path.abspath(__file__)))
-from props import PROPS
-from manifest_texts import TEXTS, NOT_APPLICABLE, HOOK_COMMITS
+from props import PROPS, TEXTS
+NOT_APPLICABLE = {}
+HOOK_COMMITS = ['82e2f34 verif hooks: decoder/verif_export.go, encoder/verif_export.go (added files, //go:build verif)']
 ROOT = os.path.dirname(os.path.dirname(os.path.abspath(__file__)))
 all_ids = [json.loads(l)['id'] for l in open(os.path.join(ROOT, 'properties.jsonl'))]
 checks = []
